@@ -522,6 +522,93 @@ def gen_all(repo, out, bindir):
     t += 'Definition gd_write_arms : list (Z * list Z * Z) := %s.\n' % arm_list(wr)
     write_if_changed(os.path.join(out, 'GenDuart.v'), t)
 
+    # ---- Port helper functions translated statement by statement: enable_tx / disable_tx / enable_rx / disable_rx (field
+    # updates, `if self.<reg>.is_none() { .. }`) and the predicates loopback / rx_enabled
+    PFIELD = {'conf': 'conf', 'stat': 'stat'}
+    PREG = {'tx_holding_reg': 'tx_hold', 'tx_shift_reg': 'tx_shift', 'rx_shift_reg': 'rx_shift'}
+
+    def p_value(tok):
+        tok = tok.strip()
+        if tok.startswith('(') and tok.endswith(')') and match_delim(tok, 0) == len(tok) - 1:
+            return p_value(tok[1:-1])
+        parts = split_top(tok, '|')
+        if len(parts) > 1:
+            e = p_value(parts[0])
+            for q in parts[1:]:
+                e = 'Z.lor (%s) (%s)' % (e, p_value(q))
+            return e
+        if re.fullmatch(r'0x[0-9a-fA-F_]+|\d+', tok):
+            return str(parse_int(tok))
+        if tok in du:
+            return 'gd_' + tok
+        raise GenError('port: value %r not understood' % tok)
+
+    def p_block(body, what):
+        body = body.strip()
+        outl = []
+        k = 0
+        while k < len(body):
+            while k < len(body) and body[k] in ' \t\r\n;':
+                k += 1
+            if k >= len(body):
+                break
+            m = re.match(r'if\s+self\.(\w+)\.(is_none|is_some)\(\)\s*\{', body[k:])
+            if m:
+                if m.group(1) not in PREG:
+                    raise GenError('%s: register %s unknown' % (what, m.group(1)))
+                b = k + m.end() - 1
+                e = match_delim(body, b)
+                inner = p_block(body[b + 1:e], what)
+                c = 'is_some (%s p)' % PREG[m.group(1)]
+                if m.group(2) == 'is_none':
+                    c = 'negb (%s)' % c
+                outl.append('let p := if %s then (%s p) else p in' % (c, ' '.join(inner)))
+                k = e + 1
+                if re.match(r'\s*else\b', body[k:]):
+                    raise GenError('%s: else branch not understood' % what)
+                continue
+            e = body.find(';', k)
+            if e < 0:
+                raise GenError('%s: trailing text %r' % (what, body[k:k + 40]))
+            st = body[k:e].strip()
+            m = re.fullmatch(r'self\.(\w+)\s*(\|=|&=)\s*(!?)\s*(.+)', st, re.S)
+            if not m or m.group(1) not in PFIELD:
+                raise GenError('%s: statement %r not understood' % (what, st))
+            f, op, neg, val = PFIELD[m.group(1)], m.group(2), m.group(3), p_value(m.group(4))
+            if op == '|=' and not neg:
+                outl.append('let p := with_%s p (Z.lor (%s p) (%s)) in' % (f, f, val))
+            elif op == '&=' and neg:
+                outl.append('let p := with_%s p (clr8 (%s p) (%s)) in' % (f, f, val))
+            else:
+                raise GenError('%s: operator in %r not understood' % (what, st))
+            k = e + 1
+        return outl
+
+    t = '(* GENERATED by tools/gen.py from /repo/src/duart.rs -- do not edit *)\n'
+    t += 'From Coq Require Import ZArith Bool.\nFrom Dmd Require Import Model.Bits Model.Fifo Model.Mem Model.Duart Gen.GenDuart.\nOpen Scope Z_scope.\n\n'
+    try:
+        for fn in ('enable_tx', 'disable_tx', 'enable_rx', 'disable_rx'):
+            t += 'Definition g_%s {A : Type} (p : port A) : port A :=\n' % fn
+            for l in p_block(find_fn(duart, fn), fn):
+                t += '  ' + l + '\n'
+            t += '  p.\n\n'
+        m = re.fullmatch(r'\(self\.mode\[1\]\s*&\s*(\w+)\)\s*==\s*(\w+)', find_fn(duart, 'loopback').strip())
+        if not m:
+            raise GenError('loopback: body not understood')
+        t += 'Definition g_loopback {A : Type} (p : port A) : bool := Z.land (mode1 p) %s =? %s.\n' % (p_value(m.group(1)), p_value(m.group(2)))
+        m = re.fullmatch(r'\(self\.conf\s*&\s*(\w+)\)\s*!=\s*0', find_fn(duart, 'rx_enabled').strip())
+        if not m:
+            raise GenError('rx_enabled: body not understood')
+        t += 'Definition g_rx_enabled {A : Type} (p : port A) : bool := negb (Z.land (conf p) %s =? 0).\n' % p_value(m.group(1))
+    except GenError as ex:
+        sys.stderr.write('gen: port helpers not translated: %s\n' % ex)
+        t = t[:t.index('Open Scope Z_scope.') + len('Open Scope Z_scope.')] + '\n\n(* TRANSLATION FAILED: %s *)\n' % str(ex).replace('*)', '* )')
+        for fn in ('enable_tx', 'disable_tx', 'enable_rx', 'disable_rx'):
+            t += 'Definition g_%s {A : Type} (p : port A) : port A := with_stat p (-1).\n' % fn
+        t += 'Definition g_loopback {A : Type} (p : port A) : bool := negb (Z.land (mode1 p) 192 =? 128).\n'
+        t += 'Definition g_rx_enabled {A : Type} (p : port A) : bool := false.\n'
+    write_if_changed(os.path.join(out, 'GenPort.v'), t)
+
     # ---- census of the constructs that can panic in a release build: explicit (unwrap / expect / panic! / unimplemented! /
     # unreachable! / assert!), indexing and slicing, integer division and remainder; per function, test modules and the
     # cfg(dmd_core_verif) instrumentation excluded.  Consumed by C12 (Spec/PanicSites.v pins what the model accounts for).
